@@ -496,6 +496,62 @@ func GuardedX(p *Prog, fn *ssa.Function, guards []*Guard, extra map[ssa.Value]Ab
 	return v
 }
 
+// GuardedReturns decides: with every instance of the given guards failing, no return of fn whose results may satisfy
+// spec is reachable (results are evaluated in the state that reaches the return, so `return ok, nil` with ok the
+// failed guard's own value is not a success). ActionSites counts the returns that are not failures by their constants.
+func GuardedReturns(p *Prog, fn *ssa.Function, guards []*Guard, spec RetSpec, nonEmptyRange bool) GuardVerdict {
+	insts := findGuards(fn, guards)
+	v := GuardVerdict{Holds: true, GuardSites: len(insts)}
+	for _, gi := range insts {
+		if gi.call != nil {
+			v.GuardPos = append(v.GuardPos, p.Rel(gi.call.Pos()))
+		} else if in, ok := gi.value.(ssa.Instruction); ok {
+			v.GuardPos = append(v.GuardPos, p.Rel(in.Pos()))
+		}
+	}
+	for _, ret := range Returns(fn) {
+		fails := false
+		for i, w := range spec.Want {
+			if w.K == KUnknown || i >= len(ret.Results) {
+				continue
+			}
+			if k, isC := ret.Results[i].(*ssa.Const); isC {
+				a := AUnknown
+				if k.Value == nil {
+					if isNillable(k.Type()) {
+						a = ANil
+					}
+				} else {
+					a = Abs{K: KConst, C: k.Value}
+				}
+				if a.Contradicts(w) || (w.K == KNil && a.K == KNonNil) {
+					fails = true
+				}
+			}
+		}
+		if !fails {
+			v.ActionSites++
+		}
+	}
+	if os.Getenv("ONTOCHECK_DEBUG") != "" {
+		fmt.Fprintf(os.Stderr, "DEBUG GuardedReturns %s: guards=%v returns=%d\n", FuncName(fn), v.GuardPos, v.ActionSites)
+	}
+	if v.ActionSites == 0 {
+		return v
+	}
+	for _, as := range assumptions(insts) {
+		q := &Query{Fn: fn, Assume: as, NonEmptyRange: nonEmptyRange, Opaque: opaqueFor(insts, nil)}
+		r, rets, sts := SuccessReturnsReachable(q, spec)
+		if len(rets) > 0 {
+			v.Holds = false
+			v.Action = rets[0]
+			v.Witness = r.Witness(p, sts[0])
+			return v
+		}
+	}
+	return v
+}
+
 // GuardBlocks returns the blocks that contain an instance of the guards.
 func GuardBlocks(fn *ssa.Function, guards []*Guard) map[*ssa.BasicBlock]bool {
 	out := map[*ssa.BasicBlock]bool{}
